@@ -245,6 +245,9 @@ func newKVPebble(factory *PebbleFactory, namespace string, shardId int64) (KV, e
 	if factory.options.InMemory {
 		pbOptions.FS = vfs.NewMem()
 	}
+	if verifFS != nil {
+		pbOptions.FS = verifFS
+	}
 
 	dbPath := factory.getKVPath(namespace, shardId)
 	db, err := pebble.Open(dbPath, pbOptions)
